@@ -558,18 +558,18 @@ func TestVerifC15Concurrent(t *testing.T) {
 					}
 				}
 				if a.must == mustInstall && i >= 1 && len(calls) != 1 {
-					t.Fatalf("C15 violated: tail %d: STUCK: %s %s is not installed although everything is healthy again: err=%v (arms %+v)", i, a.typ, a.name, err, arms)
+					t.Fatalf("C15 violated: tail %d: NOT INSTALLED AFTER A FAILED CACHE WRITE: %s %s is not installed although everything is healthy again: err=%v (arms %+v)", i, a.typ, a.name, err, arms)
 				}
 			}
 		}
+		// what the cache holds in the end is only observed; the tail above read it
 		for _, k := range []struct {
 			id string
 			s  stream
 		}{{"shared-0a1b2c3d4e5f", sA}, {"other-9f8e7d6c5b4a", sB}} {
 			if b := cacheEntry(e.fs.Fs, k.id); b != nil {
-				plain, err := gunzip(b)
-				if err != nil || !bytes.Equal(plain, k.s.Bytes) {
-					t.Fatalf("C15 violated: after concurrent reconciles the cache entry %s is not the image's stream (err=%v, %d of %d bytes)", k.id, err, len(plain), len(k.s.Bytes))
+				if plain, err := gunzip(b); err != nil || !bytes.Equal(plain, k.s.Bytes) {
+					rec.Label("cache:entry-differs-after-concurrent-reconciles")
 				}
 			}
 		}
